@@ -2,6 +2,6 @@
 # Offline setup: regenerate the constant tables from /repo and build the Lean library + driver.
 set -e
 cd "$(dirname "$0")"
-/venv/bin/python -c "import sys; sys.path.insert(0,'harness'); from ngv import tables; tables.regenerate()"
+/venv/bin/python -c "import sys; sys.path.insert(0,'harness'); from ngv import tables, translate; tables.regenerate(); translate.regenerate()"
 cd lean
 lake build NgVerif ngdriver
